@@ -54,25 +54,55 @@ theorem deleteObject_sublist (st : St) (k : Key) (c : Bool) :
   · exact List.Sublist.refl _
   · split
     · exact List.Sublist.refl _
-    · exact deleteHelper_sublist _ _ _ _
+    · split
+      · exact List.Sublist.refl _
+      · exact deleteHelper_sublist _ _ _ _
 
 theorem has_false_iff (st : St) (k : Key) : st.has k = false ↔ k ∉ st.keys := by
   simp [St.has, St.keys]
 
-theorem createObject_keys (st : St) (k : Key) (p : Str) (ps : List Key) (f : Fault) (api : Bool) :
-    (createObject st k p ps f api).1.keys = st.keys ∨
-      (st.has k = false ∧ (createObject st k p ps f api).1.keys = k :: st.keys) := by
+theorem nodupK_nodup : ∀ l : List Key, nodupK l = true → l.Nodup
+  | [], _ => List.nodup_nil
+  | k :: r, h => by
+    simp [nodupK] at h
+    exact List.nodup_cons.mpr ⟨h.1, nodupK_nodup r h.2⟩
+
+theorem createObject_keys (st : St) (k : Key) (p : Str) (ps : List Key) (f : Fault) (api : Bool) (g : List Key) :
+    (createObject st k p ps f api g).1.keys = st.keys ∨
+      (st.has k = false ∧ genOk st k g = true ∧ (createObject st k p ps f api g).1.keys = k :: (g ++ st.keys)) ∨
+      (st.has k = false ∧ (createObject st k p ps f api g).1.keys = k :: st.keys) := by
   unfold createObject
   by_cases hk : st.has k = true
   · simp [hk]
   · have hk' : st.has k = false := by simpa using hk
-    cases f <;> simp [hk', St.keys]
+    by_cases hg : genOk st k g = true
+    · cases f <;> simp [hk', hg, St.keys, List.map_map, Function.comp_def]
+    · have hg' : genOk st k g = false := by simpa using hg
+      cases f <;> simp [hk', hg', St.keys]
 
 theorem step_nodup (st : St) (op : Op) (h : st.keys.Nodup) : (step st op).keys.Nodup := by
   cases op with
-  | create k p ps f =>
-    rcases createObject_keys st k p ps f true with e | ⟨hk, e⟩
+  | create k p ps f a g =>
+    rcases createObject_keys st k p ps f a g with e | ⟨hk, hg, e⟩ | ⟨hk, e⟩
     · simpa [step, e] using h
+    · simp only [step, e]
+      have hkn : k ∉ st.keys := (has_false_iff st k).mp hk
+      simp only [genOk, Bool.and_eq_true, List.all_eq_true] at hg
+      have hgn : g.Nodup := nodupK_nodup g hg.2
+      have hfresh : ∀ x ∈ g, x ∉ st.keys ∧ x ≠ k := by
+        intro x hx
+        have := hg.1 x hx
+        simp at this
+        exact ⟨(has_false_iff st x).mp this.1, this.2⟩
+      refine List.nodup_cons.mpr ⟨?_, ?_⟩
+      · intro hmem
+        rcases List.mem_append.mp hmem with hm | hm
+        · exact (hfresh k hm).2 rfl
+        · exact hkn hm
+      · refine List.nodup_append.mpr ⟨hgn, h, ?_⟩
+        intro a ha b hb hab
+        subst hab
+        exact (hfresh a ha).1 hb
     · simp only [step, e]
       exact List.nodup_cons.mpr ⟨(has_false_iff st k).mp hk, h⟩
   | delete k c =>
